@@ -31,7 +31,7 @@ def fixtures():
     fx = sorted(glob.glob(ST.FIXROOT + "/kconfiglib/kconfigs/ok/*.in")) + sorted(glob.glob(ST.FIXROOT + "/kconfiglib/kconfigs/Kconfig.*"))
     fx += [ST.FIXROOT + "/kconfserver/Kconfig", ST.FIXROOT + "/kconfiglib/deprecated/Kconfig"] + sorted(glob.glob(ST.FIXROOT + "/menuconfig/kconfigs/Kconfig*"))
     fx += [ST.FIXROOT + "/gen_kconfig_doc/Kconfig", ST.FIXROOT + "/kconfgen/Kconfig"]
-    return ["F:" + f[len(ST.FIXROOT) + 1 :] for f in fx if os.path.isfile(f) and os.path.basename(f) not in SKIP]
+    return ["F:" + f[len(ST.FIXROOT) + 1 :] for f in fx if os.path.isfile(f) and os.path.basename(f) not in SKIP] + ["V:srcnest/Kconfig"]
 
 
 def _both(tid):
